@@ -260,7 +260,23 @@ func run15(c drv.Case, res *drv.Result) {
 	// ---- store-level monitor: a blob is only ever written with the bytes the solo runs wrote under that key
 	var monMu sync.Mutex
 	var monViol []string
+	committedBefore := map[string]bool{} // metadata keys of bundles committed before the concurrent phase
+	for k := range con.env.Meta.Snapshot() {
+		if strings.HasPrefix(k, "bundles/") {
+			committedBefore[k] = true
+		}
+	}
 	con.env.W.OnEvent = func(w *memstore.World, e *memstore.Event) {
+		if e.Store == "meta" && e.Landed && committedBefore[e.Key] {
+			// write-once: nothing that runs here (uploads, downloads, label sets, commits, listings) may touch the
+			// descriptor or file lists of a committed bundle
+			monMu.Lock()
+			if len(monViol) < 5 {
+				monViol = append(monViol, fmt.Sprintf("metadata of a committed bundle written: %s %s by %s", e.Op, e.Key, e.Actor))
+			}
+			monMu.Unlock()
+			return
+		}
 		if e.Store != "blob" || !e.Landed || (e.Op != "put" && e.Op != "putx") {
 			return
 		}
@@ -421,7 +437,11 @@ func run15(c drv.Case, res *drv.Result) {
 		}
 	}
 	for _, m := range monViol {
-		res.Violate("blob-written-with-foreign-bytes", "blob-store", "%s", m)
+		if strings.HasPrefix(m, "metadata of a committed bundle") {
+			res.Violate("committed-bundle-metadata-written", "meta-store", "%s", m)
+		} else {
+			res.Violate("blob-written-with-foreign-bytes", "blob-store", "%s", m)
+		}
 		failed = true
 	}
 	if !failed {
